@@ -350,6 +350,10 @@ func (c *codec) evalInput(ic *inputCase) (string, bool, []finding) {
 		}
 		b1, err := c.enc(v)
 		if err != nil {
+			if c.encMayFail != nil && c.encMayFail(err) {
+				outcome = "accepted-outside-the-encoder-domain"
+				return
+			}
 			bad("decoded-value-does-not-encode", err.Error())
 			return
 		}
